@@ -453,6 +453,16 @@ func (f *Flow) transfer1(in ssa.Instruction, facts Facts) {
 		if v, ok := in.(*ssa.Call); ok {
 			if _, isB := c.Value.(*ssa.Builtin); !isB {
 				t := f.C.Term(v)
+				if t.Op != "call" && t.Op != "calldyn" {
+					// the call's value was inlined (a small effectful helper): what the helper must have done on every
+					// path still happened here
+					if g := c.StaticCallee(); g != nil && g.Blocks != nil && inLibraryScope(funcPkgPath(g)) && !isSpecTypesPkg(funcPkgPath(g)) && !f.A.effectFree[g] {
+						args := f.C.freeze(v, f.C.args(c.Args))
+						d := &Atom{Pred: "done", Args: []*Term{mkCall(shortName(g), args)}, Site: f.A.P.InstrPos(in)}
+						facts.Add(d)
+						f.addDerived(facts, d)
+					}
+				}
 				if t.Op == "call" || t.Op == "calldyn" {
 					// executing the same (effectful) call again yields a new value: forget what was known about the old one
 					if !f.A.instrEffectFree(in, f.A.effectFree) {
